@@ -8,9 +8,10 @@ export GOFLAGS=-mod=mod GOPROXY=off
 REPO=${VERIF_REPO:-/repo}
 T=$(mktemp -d)
 trap 'rm -rf "$T"' EXIT
-(cd extract && go build -o "$T/extract" .)
 mkdir -p lean/CueVerif/Gen
 for g in $(python3 -c "import json,glob;print(' '.join(sorted({g for f in glob.glob('props/C*.json') for g in json.load(open(f)).get('gen',[])})))"); do
+  lc=$(printf '%s' "$g" | tr 'A-Z' 'a-z')
+  (cd extract && go build -o "$T/extract" main.go translate.go $(ls lib_*.go 2>/dev/null) $(ls "$lc"*.go))
   "$T/extract" -repo "$REPO" -gen "$g" > "$T/$g.lean"
   cmp -s "$T/$g.lean" "lean/CueVerif/Gen/$g.lean" || cp "$T/$g.lean" "lean/CueVerif/Gen/$g.lean"
 done
@@ -23,5 +24,5 @@ for f in sorted(glob.glob('props/C*.json')):
     if os.path.exists('lean/CueVerif/Bridge/'+p+'.lean'): out.append('CueVerif.Bridge.'+p)
 print(' '.join(out))")
 (cd lean && lake build $MODS)
-./harness/build.sh "$T/h"
+for f in props/C*.json; do ./harness/build.sh "$T/h" "$(basename "$f" .json)"; done
 echo setup ok
